@@ -808,6 +808,30 @@ def _check_solved(case, it, w, viol, stats, probe, props):
     except Exception as e:
         viol('C12', 'readback-raises', 'y() raised %r after an optimal solve' % (e,), exc=type(e).__name__)
         return
+    # slices: x[i:j].get() returns exactly the slice's entries, in the slice's shape, and agrees with x[i:j]()
+    stats['checks_c12'] += 1
+    a_ = case['seed'] % d
+    b_ = a_ + 1 + (case['seed'] // 7) % (d - a_)
+    for sl, nm in (((a_, b_), 't[%d:%d]' % (a_, b_)), (a_, 't[%d]' % a_)):
+        obj_ = it.env['t'][slice(*sl)] if isinstance(sl, tuple) else it.env['t'][sl]
+        try:
+            gv = obj_.get()
+        except Exception as e:
+            viol('C12', 'slice-readback-raises', '%s.get() raised %r after an optimal solve' % (nm, e), exc=type(e).__name__,
+                 tags=['slice_get_' + case['kind']])
+            break
+        rows_s, _ = _series_to_rows(gv, S)
+        rows_f, _ = _series_to_rows(tv, S)
+        rows_k, _ = _series_to_rows(obj_(), S)
+        for s in range(S):
+            want = rows_f[s][sl[0]:sl[1]] if isinstance(sl, tuple) else rows_f[s][sl:sl + 1]
+            if rows_s[s].shape != want.shape or np.max(np.abs(rows_s[s] - want)) > 1e-9:
+                viol('C12', 'slice-readback', '%s.get() = %s at label %r, the entries of t.get() it denotes are %s'
+                     % (nm, rows_s[s], labels[s], want), tags=['slice_get'])
+                break
+            if rows_k[s].shape != want.shape or np.max(np.abs(rows_k[s] - want)) > 1e-7:
+                viol('C12', 'call-vs-get', '%s() = %s but the entries of t.get() it denotes are %s' % (nm, rows_k[s], want))
+                break
     # convex atoms on decision expressions (multiplier and affine offset), evaluated at the solution
     if case['kind'] == 'combo-ro' or case.get('cvx_dro'):
         from sim.astx import Builder, evalnum
